@@ -165,6 +165,15 @@ def related_sources(rng):
          ('field', ('binary', 'add', layered, ('object', [('fix', 'a', False, 'd', None, N(9))])), 'd'),
          ('std', 'mergePatch', [layered, ('object', [('dyn', key, False, 'd', None, ('null',))])])],
     ]
+    # a name that one source computes at run time and another one merely mentions: whether the interner already
+    # knows a name must not change what an absent-field access answers (also when the object's asserts fail)
+    nm = 'zq' + rng.choice('abcdef')
+    failing = ('object', [('assert', ('false',), ('str', 'object assertion')), ('fix', 'a', False, 'd', None, N(1))])
+    okobj = ('object', [('fix', 'a', False, 'd', None, N(1))])
+    computed = ('binary', 'add', ('str', nm[:2]), ('str', nm[2:]))
+    groups.append([('index', failing, computed), ('object', [('fix', nm, False, 'd', None, N(1))]), ('index', okobj, computed),
+                   ('std', 'objectHasEx', [failing, computed, ('true',)]), ('field', failing, 'a'),
+                   ('local', [(nm, None, N(2))], ('var', nm)), ('index', ('binary', 'add', failing, okobj), computed)])
     g = rng.choice(groups)
     return rng.sample(g, rng.randrange(3, 5))
 
